@@ -1,0 +1,407 @@
+//go:build verif
+
+// Contracts (second batch) for pkg/document/table.go, read by /verif/engine (govc).
+// Comments only: with or without the build tag this file adds no code to the package.
+package document
+
+//@ func (*Table).IsCellMerged
+//@ props C09
+//@ requires t != nil
+//@ modifies nothing
+//@ ensures err == nil <==> (0 <= row && row < len(t.Rows) && 0 <= col && col < len(t.Rows[row].Cells))
+//@ ensures err != nil ==> result0 == false
+//@ ensures err == nil ==> (result0 <==> (t.Rows[row].Cells[col].Properties != nil && ((t.Rows[row].Cells[col].Properties.GridSpan != nil && t.Rows[row].Cells[col].Properties.GridSpan.Val != "" && t.Rows[row].Cells[col].Properties.GridSpan.Val != "1") || t.Rows[row].Cells[col].Properties.VMerge != nil)))
+
+// rowPropsOwn: no two rows share a row-properties object (true of every table the API builds:
+// row properties are only ever allocated per row by SetRowHeight/SetRowKeepTogether/SetRowAsHeader).
+//@ spec rowPropsOwn(t *Table) bool = forall r1 int, r2 int :: 0 <= r1 && r1 < len(t.Rows) && 0 <= r2 && r2 < len(t.Rows) && r1 != r2 && t.Rows[r1].Properties != nil ==> t.Rows[r1].Properties != t.Rows[r2].Properties
+
+//@ func (*Table).IsRowHeader
+//@ props C09
+//@ requires t != nil
+//@ modifies nothing
+//@ ensures err == nil <==> (0 <= rowIndex && rowIndex < len(t.Rows))
+//@ ensures err != nil ==> result0 == false
+//@ ensures err == nil ==> (result0 <==> (t.Rows[rowIndex].Properties != nil && t.Rows[rowIndex].Properties.TblHeader != nil && t.Rows[rowIndex].Properties.TblHeader.Val == "1"))
+
+//@ func (*Table).SetRowKeepTogether
+//@ props C09
+//@ requires t != nil && rowPropsOwn(t)
+//@ modifies TableRow.Properties, TableRowProperties.CantSplit
+//@ ensures err == nil <==> (0 <= rowIndex && rowIndex < len(t.Rows))
+//@ ensures err != nil ==> unchangedHeap()
+//@ ensures err == nil ==> rowPropsOwn(t)
+//@ ensures err == nil ==> t.Rows[rowIndex].Properties != nil && (old(t.Rows[rowIndex].Properties) != nil ==> t.Rows[rowIndex].Properties == old(t.Rows[rowIndex].Properties)) && (old(t.Rows[rowIndex].Properties) == nil ==> fresh(t.Rows[rowIndex].Properties))
+//@ ensures err == nil && keepTogether ==> t.Rows[rowIndex].Properties.CantSplit != nil && fresh(t.Rows[rowIndex].Properties.CantSplit) && t.Rows[rowIndex].Properties.CantSplit.Val == "1"
+//@ ensures err == nil && !keepTogether ==> t.Rows[rowIndex].Properties.CantSplit == nil
+//@ ensures err == nil ==> t.Rows[rowIndex].Properties.TblHeader == old(ite(t.Rows[rowIndex].Properties == nil, nil, t.Rows[rowIndex].Properties.TblHeader)) && t.Rows[rowIndex].Properties.TableRowH == old(ite(t.Rows[rowIndex].Properties == nil, nil, t.Rows[rowIndex].Properties.TableRowH))
+//@ ensures err == nil ==> forall r int :: 0 <= r && r < len(t.Rows) && r != rowIndex ==> t.Rows[r].Properties == old(t.Rows[r].Properties) && (t.Rows[r].Properties != nil ==> t.Rows[r].Properties.CantSplit == old(t.Rows[r].Properties.CantSplit))
+
+//@ func (*Table).SetRowAsHeader
+//@ props C09
+//@ requires t != nil && rowPropsOwn(t)
+//@ modifies TableRow.Properties, TableRowProperties.TblHeader
+//@ ensures err == nil <==> (0 <= rowIndex && rowIndex < len(t.Rows))
+//@ ensures err != nil ==> unchangedHeap()
+//@ ensures err == nil ==> rowPropsOwn(t)
+//@ ensures err == nil ==> t.Rows[rowIndex].Properties != nil && (old(t.Rows[rowIndex].Properties) != nil ==> t.Rows[rowIndex].Properties == old(t.Rows[rowIndex].Properties)) && (old(t.Rows[rowIndex].Properties) == nil ==> fresh(t.Rows[rowIndex].Properties))
+//@ ensures err == nil && isHeader ==> t.Rows[rowIndex].Properties.TblHeader != nil && fresh(t.Rows[rowIndex].Properties.TblHeader) && t.Rows[rowIndex].Properties.TblHeader.Val == "1"
+//@ ensures err == nil && !isHeader ==> t.Rows[rowIndex].Properties.TblHeader == nil
+//@ ensures err == nil ==> t.Rows[rowIndex].Properties.CantSplit == old(ite(t.Rows[rowIndex].Properties == nil, nil, t.Rows[rowIndex].Properties.CantSplit)) && t.Rows[rowIndex].Properties.TableRowH == old(ite(t.Rows[rowIndex].Properties == nil, nil, t.Rows[rowIndex].Properties.TableRowH))
+//@ ensures err == nil ==> forall r int :: 0 <= r && r < len(t.Rows) && r != rowIndex ==> t.Rows[r].Properties == old(t.Rows[r].Properties) && (t.Rows[r].Properties != nil ==> t.Rows[r].Properties.TblHeader == old(t.Rows[r].Properties.TblHeader))
+
+//@ func (*Table).SetRowHeight
+//@ props C09
+//@ requires t != nil && rowPropsOwn(t)
+//@ modifies TableRow.Properties, TableRowProperties.TableRowH
+//@ ensures err == nil <==> (0 <= rowIndex && rowIndex < len(t.Rows) && config != nil)
+//@ ensures err != nil ==> unchangedHeap()
+//@ ensures err == nil ==> rowPropsOwn(t)
+//@ ensures err == nil ==> t.Rows[rowIndex].Properties != nil && (old(t.Rows[rowIndex].Properties) != nil ==> t.Rows[rowIndex].Properties == old(t.Rows[rowIndex].Properties)) && (old(t.Rows[rowIndex].Properties) == nil ==> fresh(t.Rows[rowIndex].Properties))
+//@ ensures err == nil ==> t.Rows[rowIndex].Properties.TableRowH != nil && fresh(t.Rows[rowIndex].Properties.TableRowH) && t.Rows[rowIndex].Properties.TableRowH.Val == itoa(config.Height * 20) && t.Rows[rowIndex].Properties.TableRowH.HRule == string(config.Rule)
+//@ ensures err == nil ==> t.Rows[rowIndex].Properties.CantSplit == old(ite(t.Rows[rowIndex].Properties == nil, nil, t.Rows[rowIndex].Properties.CantSplit)) && t.Rows[rowIndex].Properties.TblHeader == old(ite(t.Rows[rowIndex].Properties == nil, nil, t.Rows[rowIndex].Properties.TblHeader))
+//@ ensures err == nil ==> forall r int :: 0 <= r && r < len(t.Rows) && r != rowIndex ==> t.Rows[r].Properties == old(t.Rows[r].Properties) && (t.Rows[r].Properties != nil ==> t.Rows[r].Properties.TableRowH == old(t.Rows[r].Properties.TableRowH))
+
+//@ func (*Table).SetHeaderRows
+//@ props C09
+//@ requires t != nil && rowPropsOwn(t)
+//@ modifies TableRow.Properties, TableRowProperties.TblHeader
+//@ ensures err == nil <==> (0 <= startRow && startRow <= endRow && endRow < len(t.Rows))
+//@ ensures err != nil ==> unchangedHeap()
+//@ ensures err == nil ==> rowPropsOwn(t)
+//@ ensures err == nil ==> forall r int :: startRow <= r && r <= endRow ==> t.Rows[r].Properties != nil && t.Rows[r].Properties.TblHeader != nil && t.Rows[r].Properties.TblHeader.Val == "1" && (old(t.Rows[r].Properties) != nil ==> t.Rows[r].Properties == old(t.Rows[r].Properties))
+//@ ensures err == nil ==> forall r int :: 0 <= r && r < len(t.Rows) && (r < startRow || r > endRow) ==> t.Rows[r].Properties == old(t.Rows[r].Properties) && (t.Rows[r].Properties != nil ==> t.Rows[r].Properties.TblHeader == nil)
+//@ loop 1
+//@   invariant 0 <= #i && #i <= len(t.Rows)
+//@   invariant unchangedExcept("TableRowProperties.TblHeader")
+//@   invariant forall r int :: 0 <= r && r < #i && t.Rows[r].Properties != nil ==> t.Rows[r].Properties.TblHeader == nil
+//@   decreases len(t.Rows) - #i
+//@ loop 2
+//@   invariant startRow <= i && i <= endRow + 1
+//@   invariant rowPropsOwn(t)
+//@   invariant forall r int :: startRow <= r && r < i ==> t.Rows[r].Properties != nil && t.Rows[r].Properties.TblHeader != nil && t.Rows[r].Properties.TblHeader.Val == "1" && (old(t.Rows[r].Properties) != nil ==> t.Rows[r].Properties == old(t.Rows[r].Properties))
+//@   invariant forall r int :: 0 <= r && r < len(t.Rows) && (r < startRow || r >= i) ==> t.Rows[r].Properties == old(t.Rows[r].Properties)
+//@   invariant forall r int :: 0 <= r && r < len(t.Rows) && (r < startRow || r >= i) && t.Rows[r].Properties != nil ==> t.Rows[r].Properties.TblHeader == nil
+//@   decreases endRow + 1 - i
+
+// cellParasOwn: no two cells of the grid share a paragraph backing array (true of every table the API
+// builds: paragraph slices are allocated per cell and only ever copied together with their cell).
+//@ spec cellParasOwn(t *Table) bool = forall r1 int, c1 int, r2 int, c2 int :: 0 <= r1 && r1 < len(t.Rows) && 0 <= c1 && c1 < len(t.Rows[r1].Cells) && 0 <= r2 && r2 < len(t.Rows) && 0 <= c2 && c2 < len(t.Rows[r2].Cells) && (r1 != r2 || c1 != c2) && arr(t.Rows[r1].Cells[c1].Paragraphs) != 0 ==> arr(t.Rows[r1].Cells[c1].Paragraphs) != arr(t.Rows[r2].Cells[c2].Paragraphs)
+
+//@ func (*Table).GetCellParagraphs
+//@ props C09
+//@ requires t != nil
+//@ modifies nothing
+//@ ensures err == nil <==> (0 <= row && row < len(t.Rows) && 0 <= col && col < len(t.Rows[row].Cells))
+//@ ensures err != nil ==> len(result0) == 0 && arr(result0) == 0
+//@ ensures err == nil ==> result0 == t.Rows[row].Cells[col].Paragraphs
+
+//@ func (*Table).ClearCellParagraphs
+//@ props C09
+//@ requires t != nil && rowsOwn(t)
+//@ modifies TableCell.Paragraphs
+//@ ensures err == nil <==> (0 <= row && row < len(t.Rows) && 0 <= col && col < len(t.Rows[row].Cells))
+//@ ensures err != nil ==> unchangedHeap()
+//@ ensures err == nil ==> len(t.Rows[row].Cells[col].Paragraphs) == 1 && freshArr(t.Rows[row].Cells[col].Paragraphs) && len(t.Rows[row].Cells[col].Paragraphs[0].Runs) == 1 && freshArr(t.Rows[row].Cells[col].Paragraphs[0].Runs) && t.Rows[row].Cells[col].Paragraphs[0].Runs[0].Text.Content == ""
+//@ ensures err == nil ==> forall r int, c int :: 0 <= r && r < len(t.Rows) && 0 <= c && c < len(t.Rows[r].Cells) && (r != row || c != col) ==> t.Rows[r].Cells[c].Paragraphs == old(t.Rows[r].Cells[c].Paragraphs)
+
+//@ func (*Table).AddCellParagraph
+//@ props C09
+//@ requires t != nil && rowsOwn(t) && cellParasOwn(t)
+//@ modifies TableCell.Paragraphs, Paragraph.*
+//@ ensures err == nil <==> (0 <= row && row < len(t.Rows) && 0 <= col && col < len(t.Rows[row].Cells))
+//@ ensures err != nil ==> unchangedHeap() && result0 == nil
+//@ ensures err == nil ==> len(t.Rows[row].Cells[col].Paragraphs) == old(len(t.Rows[row].Cells[col].Paragraphs)) + 1
+//@ ensures err == nil ==> result0 == &t.Rows[row].Cells[col].Paragraphs[len(t.Rows[row].Cells[col].Paragraphs) - 1]
+//@ ensures err == nil ==> len(result0.Runs) == 1 && freshArr(result0.Runs) && result0.Runs[0].Text.Content == text && result0.Runs[0].Text.Space == "preserve" && result0.Properties == nil
+//@ ensures err == nil ==> forall k int :: 0 <= k && k < old(len(t.Rows[row].Cells[col].Paragraphs)) ==> t.Rows[row].Cells[col].Paragraphs[k] == old(t.Rows[row].Cells[col].Paragraphs[k])
+//@ ensures err == nil ==> forall r int, c int :: 0 <= r && r < len(t.Rows) && 0 <= c && c < len(t.Rows[r].Cells) && (r != row || c != col) ==> t.Rows[r].Cells[c].Paragraphs == old(t.Rows[r].Cells[c].Paragraphs)
+//@ ensures err == nil ==> forall r int, c int, k int :: 0 <= r && r < len(t.Rows) && 0 <= c && c < len(t.Rows[r].Cells) && (r != row || c != col) && 0 <= k && k < len(t.Rows[r].Cells[c].Paragraphs) ==> t.Rows[r].Cells[c].Paragraphs[k] == old(t.Rows[r].Cells[c].Paragraphs[k])
+//@ ensures err == nil ==> cellParasOwn(t)
+
+// Text model of a cell, as left folds (the shape GetCellText computes): the runs of each paragraph
+// concatenated, paragraphs separated (not terminated) by "\n".
+//@ spec runsCat(acc string, rs []Run, n int) string = ite(n <= 0, acc, runsCat(acc, rs, n - 1) + rs[n-1].Text.Content)
+//@ spec parasCat(ps []Paragraph, n int) string = ite(n <= 0, "", ite(n < len(ps), runsCat(parasCat(ps, n - 1), ps[n-1].Runs, len(ps[n-1].Runs)) + "\n", runsCat(parasCat(ps, n - 1), ps[n-1].Runs, len(ps[n-1].Runs))))
+//@ spec cellText(c *TableCell) string = parasCat(c.Paragraphs, len(c.Paragraphs))
+
+//@ func (*Table).GetCellText
+//@ props C09
+//@ requires t != nil
+//@ modifies nothing
+//@ ensures err == nil <==> (0 <= row && row < len(t.Rows) && 0 <= col && col < len(t.Rows[row].Cells))
+//@ ensures err != nil ==> result0 == ""
+//@ ensures err == nil ==> result0 == old(cellText(&t.Rows[row].Cells[col]))
+//@ loop 1
+//@   invariant 0 <= #i && #i <= len(cell.Paragraphs) && unchangedHeap()
+//@   invariant result == old(parasCat(cell.Paragraphs, #i))
+//@   decreases len(cell.Paragraphs) - #i
+//@ loop 2
+//@   invariant 0 <= idx && idx < len(cell.Paragraphs) && unchangedHeap()
+//@   invariant para.Runs == old(cell.Paragraphs[idx].Runs)
+//@   invariant 0 <= #i && #i <= len(para.Runs)
+//@   invariant result == old(runsCat(parasCat(cell.Paragraphs, idx), cell.Paragraphs[idx].Runs, #i))
+//@   decreases len(para.Runs) - #i
+
+// iterHasNext: the iterator still points into its totalRows x totalCols snapshot of the grid.
+//@ spec iterHasNext(it *CellIterator) bool = it.totalRows != 0 && it.totalCols != 0 && it.currentRow < it.totalRows && (it.currentRow < it.totalRows - 1 || it.currentCol < it.totalCols)
+
+//@ func (*Table).NewCellIterator
+//@ props C09
+//@ requires t != nil
+//@ modifies nothing
+//@ ensures fresh(result) && result.table == t && result.currentRow == 0 && result.currentCol == 0
+//@ ensures result.totalRows == len(t.Rows) && result.totalCols == ite(len(t.Rows) == 0, 0, len(t.Rows[0].Cells))
+
+//@ func (*CellIterator).HasNext
+//@ props C09
+//@ requires iter != nil
+//@ modifies nothing
+//@ ensures result <==> iterHasNext(iter)
+
+//@ func (*CellIterator).Next
+//@ props C09
+//@ requires iter != nil && iter.table != nil
+//@ modifies CellIterator.currentRow, CellIterator.currentCol
+//@ ensures err == nil <==> old(iterHasNext(iter) && 0 <= iter.currentRow && iter.currentRow < len(iter.table.Rows) && 0 <= iter.currentCol && iter.currentCol < len(iter.table.Rows[iter.currentRow].Cells))
+//@ ensures err != nil ==> unchangedHeap() && result0 == nil
+//@ ensures err == nil ==> fresh(result0) && result0.Row == old(iter.currentRow) && result0.Col == old(iter.currentCol)
+//@ ensures err == nil ==> result0.Cell == &iter.table.Rows[old(iter.currentRow)].Cells[old(iter.currentCol)]
+//@ ensures err == nil ==> result0.Text == old(cellText(&iter.table.Rows[iter.currentRow].Cells[iter.currentCol]))
+//@ ensures err == nil ==> iter.currentCol == ite(old(iter.currentCol) + 1 >= iter.totalCols, 0, old(iter.currentCol) + 1) && iter.currentRow == ite(old(iter.currentCol) + 1 >= iter.totalCols, old(iter.currentRow) + 1, old(iter.currentRow))
+//@ ensures err == nil ==> (result0.IsLast <==> !iterHasNext(iter))
+//@ ensures forall it *CellIterator :: it != iter && allocated(it) ==> it.currentRow == old(it.currentRow) && it.currentCol == old(it.currentCol)
+
+//@ func (*CellIterator).Reset
+//@ props C09
+//@ requires iter != nil
+//@ modifies CellIterator.currentRow, CellIterator.currentCol
+//@ ensures iter.currentRow == 0 && iter.currentCol == 0
+//@ ensures forall it *CellIterator :: it != iter ==> it.currentRow == old(it.currentRow) && it.currentCol == old(it.currentCol)
+
+//@ func (*CellIterator).Current
+//@ props C09
+//@ requires iter != nil
+//@ modifies nothing
+//@ ensures result0 == iter.currentRow && result1 == iter.currentCol
+
+//@ func (*CellIterator).Total
+//@ props C09
+//@ requires iter != nil
+//@ modifies nothing
+//@ ensures result == iter.totalRows * iter.totalCols
+
+// paraRunsOwn: no two paragraphs of the grid (same or different cells) share a run backing array.
+//@ spec paraRunsOwn(t *Table) bool = forall r1 int, c1 int, k1 int, r2 int, c2 int, k2 int :: 0 <= r1 && r1 < len(t.Rows) && 0 <= c1 && c1 < len(t.Rows[r1].Cells) && 0 <= k1 && k1 < len(t.Rows[r1].Cells[c1].Paragraphs) && 0 <= r2 && r2 < len(t.Rows) && 0 <= c2 && c2 < len(t.Rows[r2].Cells) && 0 <= k2 && k2 < len(t.Rows[r2].Cells[c2].Paragraphs) && (r1 != r2 || c1 != c2 || k1 != k2) && arr(t.Rows[r1].Cells[c1].Paragraphs[k1].Runs) != 0 ==> arr(t.Rows[r1].Cells[c1].Paragraphs[k1].Runs) != arr(t.Rows[r2].Cells[c2].Paragraphs[k2].Runs)
+
+//@ func (*Table).ClearCellContent
+//@ props C09
+//@ requires t != nil && paraRunsOwn(t)
+//@ modifies Run.Text.Content
+//@ ensures err == nil <==> (0 <= row && row < len(t.Rows) && 0 <= col && col < len(t.Rows[row].Cells))
+//@ ensures err != nil ==> unchangedHeap()
+//@ ensures err == nil ==> forall k int, j int :: 0 <= k && k < len(t.Rows[row].Cells[col].Paragraphs) && 0 <= j && j < len(t.Rows[row].Cells[col].Paragraphs[k].Runs) ==> t.Rows[row].Cells[col].Paragraphs[k].Runs[j].Text.Content == ""
+//@ ensures err == nil ==> forall r int, c int, k int, j int :: 0 <= r && r < len(t.Rows) && 0 <= c && c < len(t.Rows[r].Cells) && (r != row || c != col) && 0 <= k && k < len(t.Rows[r].Cells[c].Paragraphs) && 0 <= j && j < len(t.Rows[r].Cells[c].Paragraphs[k].Runs) ==> t.Rows[r].Cells[c].Paragraphs[k].Runs[j].Text.Content == old(t.Rows[r].Cells[c].Paragraphs[k].Runs[j].Text.Content)
+//@ loop 1
+//@   invariant 0 <= #i && #i <= len(cell.Paragraphs) && unchangedExcept("Run.Text.Content")
+//@   invariant forall k int, j int :: 0 <= k && k < #i && 0 <= j && j < len(cell.Paragraphs[k].Runs) ==> cell.Paragraphs[k].Runs[j].Text.Content == ""
+//@   invariant forall r int, c int, k int, j int :: 0 <= r && r < len(t.Rows) && 0 <= c && c < len(t.Rows[r].Cells) && (r != row || c != col) && 0 <= k && k < len(t.Rows[r].Cells[c].Paragraphs) && 0 <= j && j < len(t.Rows[r].Cells[c].Paragraphs[k].Runs) ==> t.Rows[r].Cells[c].Paragraphs[k].Runs[j].Text.Content == old(t.Rows[r].Cells[c].Paragraphs[k].Runs[j].Text.Content)
+//@   decreases len(cell.Paragraphs) - #i
+//@ loop 2
+//@   invariant 0 <= i && i < len(cell.Paragraphs) && 0 <= #i && #i <= len(cell.Paragraphs[i].Runs) && unchangedExcept("Run.Text.Content")
+//@   invariant forall k int, j int :: 0 <= k && k < i && 0 <= j && j < len(cell.Paragraphs[k].Runs) ==> cell.Paragraphs[k].Runs[j].Text.Content == ""
+//@   invariant forall j int :: 0 <= j && j < #i ==> cell.Paragraphs[i].Runs[j].Text.Content == ""
+//@   invariant forall r int, c int, k int, j int :: 0 <= r && r < len(t.Rows) && 0 <= c && c < len(t.Rows[r].Cells) && (r != row || c != col) && 0 <= k && k < len(t.Rows[r].Cells[c].Paragraphs) && 0 <= j && j < len(t.Rows[r].Cells[c].Paragraphs[k].Runs) ==> t.Rows[r].Cells[c].Paragraphs[k].Runs[j].Text.Content == old(t.Rows[r].Cells[c].Paragraphs[k].Runs[j].Text.Content)
+//@   decreases len(cell.Paragraphs[i].Runs) - #i
+
+//@ func (*Table).ClearCellFormat
+//@ props C09
+//@ requires t != nil && rowsOwn(t) && cellParasOwn(t) && paraRunsOwn(t)
+//@ modifies TableCell.Properties, Paragraph.Properties, Run.Properties
+//@ ensures err == nil <==> (0 <= row && row < len(t.Rows) && 0 <= col && col < len(t.Rows[row].Cells))
+//@ ensures err != nil ==> unchangedHeap()
+//@ ensures err == nil && old(t.Rows[row].Cells[col].Properties) == nil ==> t.Rows[row].Cells[col].Properties == nil
+//@ ensures err == nil && old(t.Rows[row].Cells[col].Properties) != nil ==> fresh(t.Rows[row].Cells[col].Properties) && t.Rows[row].Cells[col].Properties.GridSpan == old(t.Rows[row].Cells[col].Properties.GridSpan) && t.Rows[row].Cells[col].Properties.VMerge == old(t.Rows[row].Cells[col].Properties.VMerge) && t.Rows[row].Cells[col].Properties.TableCellW == old(t.Rows[row].Cells[col].Properties.TableCellW)
+//@ ensures err == nil && old(t.Rows[row].Cells[col].Properties) != nil ==> t.Rows[row].Cells[col].Properties.VAlign == nil && t.Rows[row].Cells[col].Properties.TextDirection == nil && t.Rows[row].Cells[col].Properties.Shd == nil && t.Rows[row].Cells[col].Properties.TcBorders == nil && t.Rows[row].Cells[col].Properties.TcMar == nil && t.Rows[row].Cells[col].Properties.NoWrap == nil && t.Rows[row].Cells[col].Properties.HideMark == nil
+//@ ensures err == nil ==> forall k int :: 0 <= k && k < len(t.Rows[row].Cells[col].Paragraphs) ==> t.Rows[row].Cells[col].Paragraphs[k].Properties == nil
+//@ ensures err == nil ==> forall k int, j int :: 0 <= k && k < len(t.Rows[row].Cells[col].Paragraphs) && 0 <= j && j < len(t.Rows[row].Cells[col].Paragraphs[k].Runs) ==> t.Rows[row].Cells[col].Paragraphs[k].Runs[j].Properties == nil
+//@ ensures err == nil ==> forall r int, c int :: 0 <= r && r < len(t.Rows) && 0 <= c && c < len(t.Rows[r].Cells) && (r != row || c != col) ==> t.Rows[r].Cells[c].Properties == old(t.Rows[r].Cells[c].Properties)
+//@ ensures err == nil ==> forall r int, c int, k int :: 0 <= r && r < len(t.Rows) && 0 <= c && c < len(t.Rows[r].Cells) && (r != row || c != col) && 0 <= k && k < len(t.Rows[r].Cells[c].Paragraphs) ==> t.Rows[r].Cells[c].Paragraphs[k].Properties == old(t.Rows[r].Cells[c].Paragraphs[k].Properties)
+//@ ensures err == nil ==> forall r int, c int, k int, j int :: 0 <= r && r < len(t.Rows) && 0 <= c && c < len(t.Rows[r].Cells) && (r != row || c != col) && 0 <= k && k < len(t.Rows[r].Cells[c].Paragraphs) && 0 <= j && j < len(t.Rows[r].Cells[c].Paragraphs[k].Runs) ==> t.Rows[r].Cells[c].Paragraphs[k].Runs[j].Properties == old(t.Rows[r].Cells[c].Paragraphs[k].Runs[j].Properties)
+//@ loop 1
+//@   invariant 0 <= #i && #i <= len(cell.Paragraphs) && unchangedExcept("TableCell.Properties", "Paragraph.Properties", "Run.Properties")
+//@   invariant forall r int, c int :: 0 <= r && r < len(t.Rows) && 0 <= c && c < len(t.Rows[r].Cells) && (r != row || c != col) ==> t.Rows[r].Cells[c].Properties == old(t.Rows[r].Cells[c].Properties)
+//@   invariant old(cell.Properties) == nil ==> cell.Properties == nil
+//@   invariant old(cell.Properties) != nil ==> fresh(cell.Properties) && cell.Properties.GridSpan == old(cell.Properties.GridSpan) && cell.Properties.VMerge == old(cell.Properties.VMerge) && cell.Properties.TableCellW == old(cell.Properties.TableCellW)
+//@   invariant old(cell.Properties) != nil ==> cell.Properties.VAlign == nil && cell.Properties.TextDirection == nil && cell.Properties.Shd == nil && cell.Properties.TcBorders == nil && cell.Properties.TcMar == nil && cell.Properties.NoWrap == nil && cell.Properties.HideMark == nil
+//@   invariant forall k int :: 0 <= k && k < #i ==> cell.Paragraphs[k].Properties == nil
+//@   invariant forall k int, j int :: 0 <= k && k < #i && 0 <= j && j < len(cell.Paragraphs[k].Runs) ==> cell.Paragraphs[k].Runs[j].Properties == nil
+//@   invariant forall r int, c int, k int :: 0 <= r && r < len(t.Rows) && 0 <= c && c < len(t.Rows[r].Cells) && (r != row || c != col) && 0 <= k && k < len(t.Rows[r].Cells[c].Paragraphs) ==> t.Rows[r].Cells[c].Paragraphs[k].Properties == old(t.Rows[r].Cells[c].Paragraphs[k].Properties)
+//@   invariant forall r int, c int, k int, j int :: 0 <= r && r < len(t.Rows) && 0 <= c && c < len(t.Rows[r].Cells) && (r != row || c != col) && 0 <= k && k < len(t.Rows[r].Cells[c].Paragraphs) && 0 <= j && j < len(t.Rows[r].Cells[c].Paragraphs[k].Runs) ==> t.Rows[r].Cells[c].Paragraphs[k].Runs[j].Properties == old(t.Rows[r].Cells[c].Paragraphs[k].Runs[j].Properties)
+//@   decreases len(cell.Paragraphs) - #i
+//@ loop 2
+//@   invariant 0 <= i && i < len(cell.Paragraphs) && 0 <= #i && #i <= len(cell.Paragraphs[i].Runs) && unchangedExcept("TableCell.Properties", "Paragraph.Properties", "Run.Properties")
+//@   invariant forall r int, c int :: 0 <= r && r < len(t.Rows) && 0 <= c && c < len(t.Rows[r].Cells) && (r != row || c != col) ==> t.Rows[r].Cells[c].Properties == old(t.Rows[r].Cells[c].Properties)
+//@   invariant old(cell.Properties) == nil ==> cell.Properties == nil
+//@   invariant old(cell.Properties) != nil ==> fresh(cell.Properties) && cell.Properties.GridSpan == old(cell.Properties.GridSpan) && cell.Properties.VMerge == old(cell.Properties.VMerge) && cell.Properties.TableCellW == old(cell.Properties.TableCellW)
+//@   invariant old(cell.Properties) != nil ==> cell.Properties.VAlign == nil && cell.Properties.TextDirection == nil && cell.Properties.Shd == nil && cell.Properties.TcBorders == nil && cell.Properties.TcMar == nil && cell.Properties.NoWrap == nil && cell.Properties.HideMark == nil
+//@   invariant forall k int :: 0 <= k && k <= i ==> cell.Paragraphs[k].Properties == nil
+//@   invariant forall k int, j int :: 0 <= k && k < i && 0 <= j && j < len(cell.Paragraphs[k].Runs) ==> cell.Paragraphs[k].Runs[j].Properties == nil
+//@   invariant forall j int :: 0 <= j && j < #i ==> cell.Paragraphs[i].Runs[j].Properties == nil
+//@   invariant forall r int, c int, k int :: 0 <= r && r < len(t.Rows) && 0 <= c && c < len(t.Rows[r].Cells) && (r != row || c != col) && 0 <= k && k < len(t.Rows[r].Cells[c].Paragraphs) ==> t.Rows[r].Cells[c].Paragraphs[k].Properties == old(t.Rows[r].Cells[c].Paragraphs[k].Properties)
+//@   invariant forall r int, c int, k int, j int :: 0 <= r && r < len(t.Rows) && 0 <= c && c < len(t.Rows[r].Cells) && (r != row || c != col) && 0 <= k && k < len(t.Rows[r].Cells[c].Paragraphs) && 0 <= j && j < len(t.Rows[r].Cells[c].Paragraphs[k].Runs) ==> t.Rows[r].Cells[c].Paragraphs[k].Runs[j].Properties == old(t.Rows[r].Cells[c].Paragraphs[k].Runs[j].Properties)
+//@   decreases len(cell.Paragraphs[i].Runs) - #i
+
+//@ func (*Table).ClearTable
+//@ props C09
+//@ requires t != nil && rowsOwn(t)
+//@ modifies TableCell.Paragraphs
+//@ ensures forall r int, c int :: 0 <= r && r < len(t.Rows) && 0 <= c && c < len(t.Rows[r].Cells) ==> len(t.Rows[r].Cells[c].Paragraphs) == 1 && freshArr(t.Rows[r].Cells[c].Paragraphs) && t.Rows[r].Cells[c].Paragraphs[0].Properties == nil && len(t.Rows[r].Cells[c].Paragraphs[0].Runs) == 1 && freshArr(t.Rows[r].Cells[c].Paragraphs[0].Runs) && t.Rows[r].Cells[c].Paragraphs[0].Runs[0].Text.Content == "" && t.Rows[r].Cells[c].Paragraphs[0].Runs[0].Properties == nil
+//@ ensures cellParasOwn(t)
+//@ ensures paraRunsOwn(t)
+//@ loop 1
+//@   invariant 0 <= #i && #i <= len(t.Rows) && unchangedExcept("TableCell.Paragraphs")
+//@   invariant forall r int, c int :: 0 <= r && r < #i && 0 <= c && c < len(t.Rows[r].Cells) ==> len(t.Rows[r].Cells[c].Paragraphs) == 1 && freshArr(t.Rows[r].Cells[c].Paragraphs) && arr(t.Rows[r].Cells[c].Paragraphs) < allocBound() && t.Rows[r].Cells[c].Paragraphs[0].Properties == nil && len(t.Rows[r].Cells[c].Paragraphs[0].Runs) == 1 && freshArr(t.Rows[r].Cells[c].Paragraphs[0].Runs) && arr(t.Rows[r].Cells[c].Paragraphs[0].Runs) < allocBound() && t.Rows[r].Cells[c].Paragraphs[0].Runs[0].Text.Content == "" && t.Rows[r].Cells[c].Paragraphs[0].Runs[0].Properties == nil
+//@   invariant forall r1 int, c1 int, r2 int, c2 int :: 0 <= r1 && r1 < #i && 0 <= c1 && c1 < len(t.Rows[r1].Cells) && 0 <= r2 && r2 < #i && 0 <= c2 && c2 < len(t.Rows[r2].Cells) && (r1 != r2 || c1 != c2) ==> arr(t.Rows[r1].Cells[c1].Paragraphs) != arr(t.Rows[r2].Cells[c2].Paragraphs) && arr(t.Rows[r1].Cells[c1].Paragraphs[0].Runs) != arr(t.Rows[r2].Cells[c2].Paragraphs[0].Runs)
+//@   decreases len(t.Rows) - #i
+//@ loop 2
+//@   invariant 0 <= i && i < len(t.Rows) && 0 <= #i && #i <= len(t.Rows[i].Cells) && unchangedExcept("TableCell.Paragraphs")
+//@   invariant forall r int, c int :: 0 <= r && (r < i || (r == i && c < #i)) && 0 <= c && c < len(t.Rows[r].Cells) ==> len(t.Rows[r].Cells[c].Paragraphs) == 1 && freshArr(t.Rows[r].Cells[c].Paragraphs) && arr(t.Rows[r].Cells[c].Paragraphs) < allocBound() && t.Rows[r].Cells[c].Paragraphs[0].Properties == nil && len(t.Rows[r].Cells[c].Paragraphs[0].Runs) == 1 && freshArr(t.Rows[r].Cells[c].Paragraphs[0].Runs) && arr(t.Rows[r].Cells[c].Paragraphs[0].Runs) < allocBound() && t.Rows[r].Cells[c].Paragraphs[0].Runs[0].Text.Content == "" && t.Rows[r].Cells[c].Paragraphs[0].Runs[0].Properties == nil
+//@   invariant forall r1 int, c1 int, r2 int, c2 int :: 0 <= r1 && (r1 < i || (r1 == i && c1 < #i)) && 0 <= c1 && c1 < len(t.Rows[r1].Cells) && 0 <= r2 && (r2 < i || (r2 == i && c2 < #i)) && 0 <= c2 && c2 < len(t.Rows[r2].Cells) && (r1 != r2 || c1 != c2) ==> arr(t.Rows[r1].Cells[c1].Paragraphs) != arr(t.Rows[r2].Cells[c2].Paragraphs) && arr(t.Rows[r1].Cells[c1].Paragraphs[0].Runs) != arr(t.Rows[r2].Cells[c2].Paragraphs[0].Runs)
+//@   decreases len(t.Rows[i].Cells) - #i
+
+// MergeCellsRange validates the whole range before touching anything, so it is failure-atomic and its success
+// condition is exact. The whole-table (every other cell stays where it was) clauses are stated for the
+// single-row case only: after the MergeCellsVertical call nothing is known about cells outside the merged
+// column because the contract of MergeCellsVertical has no frame for them.
+//@ func (*Table).MergeCellsRange
+//@ props C09
+//@ wf TableCell.Properties
+//@ requires t != nil && rowsOwn(t) && cellPropsOwn(t)
+//@ ensures err == nil <==> (0 <= startRow && startRow <= endRow && endRow < old(len(t.Rows)) && 0 <= startCol && startCol <= endCol && forall r int :: startRow <= r && r <= endRow ==> endCol < old(len(t.Rows[r].Cells)))
+//@ ensures err != nil ==> unchangedHeap()
+//@ ensures err == nil ==> len(t.Rows) == old(len(t.Rows)) && t.Rows == old(t.Rows) && rowsOwn(t)
+//@ ensures err == nil && startRow == endRow ==> cellPropsOwn(t)
+//@ ensures err == nil && startRow != endRow ==> cellPropsOwn(t)
+//@ ensures err == nil ==> forall r int :: startRow <= r && r <= endRow ==> len(t.Rows[r].Cells) == old(len(t.Rows[r].Cells)) - (endCol - startCol)
+//@ ensures err == nil ==> forall r int :: 0 <= r && r < len(t.Rows) && (r < startRow || r > endRow) ==> t.Rows[r].Cells == old(t.Rows[r].Cells)
+//@ ensures err == nil && startRow == endRow ==> forall r int, c int :: 0 <= r && r < len(t.Rows) && r != startRow && 0 <= c && c < len(t.Rows[r].Cells) ==> t.Rows[r].Cells[c] == old(t.Rows[r].Cells[c])
+//@ ensures err == nil && startRow == endRow ==> forall c int :: 0 <= c && c < startCol ==> t.Rows[startRow].Cells[c] == old(t.Rows[startRow].Cells[c])
+//@ ensures err == nil && startRow == endRow ==> forall c int :: startCol < c && c < len(t.Rows[startRow].Cells) ==> t.Rows[startRow].Cells[c] == old(t.Rows[startRow].Cells[c + (endCol - startCol)])
+//@ ensures err == nil && startRow == endRow && startCol != endCol ==> t.Rows[startRow].Cells[startCol].Properties != nil && t.Rows[startRow].Cells[startCol].Properties.GridSpan != nil && t.Rows[startRow].Cells[startCol].Properties.GridSpan.Val == itoa(endCol - startCol + 1) && t.Rows[startRow].Cells[startCol].Paragraphs == old(t.Rows[startRow].Cells[startCol].Paragraphs)
+//@ ensures err == nil && startRow == endRow && startCol == endCol ==> unchangedHeap()
+//@ ensures err == nil && startRow != endRow ==> t.Rows[startRow].Cells[startCol].Properties != nil && t.Rows[startRow].Cells[startCol].Properties.VMerge != nil && t.Rows[startRow].Cells[startCol].Properties.VMerge.Val == "restart"
+//@ ensures err == nil && startRow != endRow ==> forall r int :: startRow < r && r <= endRow ==> t.Rows[r].Cells[startCol].Properties != nil && t.Rows[r].Cells[startCol].Properties.VMerge != nil && t.Rows[r].Cells[startCol].Properties.VMerge.Val == "continue" && len(t.Rows[r].Cells[startCol].Paragraphs) == 1
+//@ loop 1
+//@   invariant startRow <= i && i <= endRow + 1 && unchangedHeap()
+//@   invariant forall r int :: startRow <= r && r < i ==> endCol < len(t.Rows[r].Cells)
+//@   decreases endRow + 1 - i
+//@ loop 2
+//@   invariant startRow <= i && i <= endRow + 1 && 0 <= startRow && endRow < len(t.Rows) && 0 <= startCol && startCol <= endCol
+//@   invariant len(t.Rows) == old(len(t.Rows)) && t.Rows == old(t.Rows) && rowsOwn(t)
+//@   invariant cellPropsOwn(t)
+//@   invariant i == startRow || startCol == endCol ==> unchangedHeap()
+//@   invariant forall r int :: startRow <= r && r <= endRow ==> endCol < old(len(t.Rows[r].Cells))
+//@   invariant forall r int :: startRow <= r && r < i ==> len(t.Rows[r].Cells) == old(len(t.Rows[r].Cells)) - (endCol - startCol)
+//@   invariant forall r int :: 0 <= r && r < len(t.Rows) && (r < startRow || r >= i) ==> t.Rows[r].Cells == old(t.Rows[r].Cells)
+//@   invariant startRow == endRow ==> forall r int, c int :: 0 <= r && r < len(t.Rows) && (r < startRow || r >= i) && 0 <= c && c < len(t.Rows[r].Cells) ==> t.Rows[r].Cells[c] == old(t.Rows[r].Cells[c])
+//@   invariant startRow == endRow ==> forall r int, c int :: startRow <= r && r < i && 0 <= c && c < startCol ==> t.Rows[r].Cells[c] == old(t.Rows[r].Cells[c])
+//@   invariant startRow == endRow ==> forall r int, c int :: startRow <= r && r < i && startCol < c && c < len(t.Rows[r].Cells) ==> t.Rows[r].Cells[c] == old(t.Rows[r].Cells[c + (endCol - startCol)])
+//@   invariant i == startRow + 1 && startCol != endCol ==> t.Rows[startRow].Cells[startCol].Properties != nil && t.Rows[startRow].Cells[startCol].Properties.GridSpan != nil && t.Rows[startRow].Cells[startCol].Properties.GridSpan.Val == itoa(endCol - startCol + 1) && t.Rows[startRow].Cells[startCol].Paragraphs == old(t.Rows[startRow].Cells[startCol].Paragraphs)
+//@   decreases endRow + 1 - i
+
+// spanOf: the grid span UnmergeCells reads from a cell's properties (fmt.Sscanf "%d", default 1).
+//@ spec spanOf(p *TableCellProperties) int = ite(p == nil || p.GridSpan == nil || p.GridSpan.Val == "" || !atoiOK(p.GridSpan.Val), 1, atoi(p.GridSpan.Val))
+//@ spec extraCells(p *TableCellProperties) int = ite(spanOf(p) > 1, spanOf(p) - 1, 0)
+
+//@ func (*Table).UnmergeCells
+//@ props C09
+//@ requires t != nil && rowsOwn(t) && cellPropsOwn(t)
+//@ ensures err == nil <==> (0 <= row && row < old(len(t.Rows)) && 0 <= col && col < old(len(t.Rows[row].Cells)) && old(t.Rows[row].Cells[col].Properties) != nil)
+//@ ensures err != nil ==> unchangedHeap()
+//@ ensures err == nil ==> len(t.Rows) == old(len(t.Rows)) && t.Rows == old(t.Rows) && rowsOwn(t)
+//@ ensures err == nil ==> len(t.Rows[row].Cells) == old(len(t.Rows[row].Cells)) + old(extraCells(t.Rows[row].Cells[col].Properties))
+//@ ensures err == nil ==> t.Rows[row].Cells[col].Properties == old(t.Rows[row].Cells[col].Properties) && t.Rows[row].Cells[col].Properties.GridSpan == nil && t.Rows[row].Cells[col].Properties.VMerge == nil
+//@ ensures err == nil ==> forall c int :: {old(t.Rows[row].Cells[c].Properties)} 0 <= c && c <= col ==> t.Rows[row].Cells[c].Properties == old(t.Rows[row].Cells[c].Properties)
+//@ ensures err == nil ==> forall c0 int :: {old(t.Rows[row].Cells[c0].Properties)} col < c0 && c0 < old(len(t.Rows[row].Cells)) ==> t.Rows[row].Cells[c0 + old(extraCells(t.Rows[row].Cells[col].Properties))].Properties == old(t.Rows[row].Cells[c0].Properties)
+//@ ensures err == nil && old(t.Rows[row].Cells[col].Properties.VMerge) == nil ==> forall c0 int :: {old(t.Rows[row].Cells[c0].Paragraphs)} col < c0 && c0 < old(len(t.Rows[row].Cells)) ==> t.Rows[row].Cells[c0 + old(extraCells(t.Rows[row].Cells[col].Properties))].Paragraphs == old(t.Rows[row].Cells[c0].Paragraphs)
+//@ ensures err == nil && old(t.Rows[row].Cells[col].Properties.VMerge) != nil ==> forall c0 int :: {old(t.Rows[row].Cells[c0].Paragraphs)} col < c0 && c0 < old(len(t.Rows[row].Cells)) ==> t.Rows[row].Cells[c0 + old(extraCells(t.Rows[row].Cells[col].Properties))].Paragraphs == old(t.Rows[row].Cells[c0].Paragraphs)
+//@ ensures err == nil ==> t.Rows[row].Cells[col].Paragraphs == old(t.Rows[row].Cells[col].Paragraphs)
+//@ ensures err == nil ==> forall r int :: 0 <= r && r < len(t.Rows) && r != row ==> t.Rows[r].Cells == old(t.Rows[r].Cells)
+//@ ensures err == nil ==> forall r int, c int :: 0 <= r && r < len(t.Rows) && r != row && 0 <= c && c < len(t.Rows[r].Cells) && (c != col || r < row) ==> t.Rows[r].Cells[c] == old(t.Rows[r].Cells[c])
+//@ ensures err == nil ==> forall r int :: row < r && r < len(t.Rows) && col < len(t.Rows[r].Cells) ==> t.Rows[r].Cells[col].Properties == old(t.Rows[r].Cells[col].Properties) && t.Rows[r].Cells[col].Tables == old(t.Rows[r].Cells[col].Tables) && (t.Rows[r].Cells[col].Paragraphs == old(t.Rows[r].Cells[col].Paragraphs) || (old(len(t.Rows[r].Cells[col].Paragraphs)) == 0 && len(t.Rows[r].Cells[col].Paragraphs) == 1))
+//@ ensures err == nil ==> forall r int, c int :: 0 <= r && r < len(t.Rows) && r != row && 0 <= c && c < len(t.Rows[r].Cells) && (c != col || r < row) && t.Rows[r].Cells[c].Properties != nil ==> t.Rows[r].Cells[c].Properties.VMerge == old(t.Rows[r].Cells[c].Properties.VMerge)
+//@ ensures err == nil ==> forall r int :: row < r && r < len(t.Rows) && col < len(t.Rows[r].Cells) && t.Rows[r].Cells[col].Properties != nil ==> t.Rows[r].Cells[col].Properties.VMerge == nil || t.Rows[r].Cells[col].Properties.VMerge == old(t.Rows[r].Cells[col].Properties.VMerge)
+//@ loop 1
+//@   invariant 1 <= i && (i <= old(spanOf(t.Rows[row].Cells[col].Properties)) || i == 1)
+//@   invariant 0 <= row && row < len(t.Rows) && 0 <= col && col < old(len(t.Rows[row].Cells))
+//@   invariant len(t.Rows) == old(len(t.Rows)) && t.Rows == old(t.Rows) && rowsOwn(t)
+//@   invariant unchangedExcept("TableRow.Cells", "TableCell.*")
+//@   invariant len(t.Rows[row].Cells) == old(len(t.Rows[row].Cells)) + (i - 1)
+//@   invariant (arr(t.Rows[row].Cells) == old(arr(t.Rows[row].Cells)) && off(t.Rows[row].Cells) == old(off(t.Rows[row].Cells))) || freshArr(t.Rows[row].Cells)
+//@   invariant cell == old(&t.Rows[row].Cells[col])
+//@   invariant cell.Properties == old(t.Rows[row].Cells[col].Properties) && cell.Properties != nil
+//@   invariant t.Rows[row].Cells[col].Properties == cell.Properties
+//@   invariant forall r int :: 0 <= r && r < len(t.Rows) && r != row ==> t.Rows[r].Cells == old(t.Rows[r].Cells)
+//@   invariant forall r int, c int :: 0 <= r && r < len(t.Rows) && r != row && 0 <= c && c < len(t.Rows[r].Cells) ==> t.Rows[r].Cells[c] == old(t.Rows[r].Cells[c])
+//@   invariant forall c int :: {old(t.Rows[row].Cells[c].Properties)} 0 <= c && c <= col ==> t.Rows[row].Cells[c].Properties == old(t.Rows[row].Cells[c].Properties)
+//@   invariant forall c0 int :: {old(t.Rows[row].Cells[c0].Properties)} col < c0 && c0 < old(len(t.Rows[row].Cells)) ==> t.Rows[row].Cells[c0 + (i - 1)].Properties == old(t.Rows[row].Cells[c0].Properties)
+//@   invariant t.Rows[row].Cells[col].Paragraphs == old(t.Rows[row].Cells[col].Paragraphs)
+//@   invariant forall c0 int :: {old(t.Rows[row].Cells[c0].Paragraphs)} col < c0 && c0 < old(len(t.Rows[row].Cells)) ==> t.Rows[row].Cells[c0 + (i - 1)].Paragraphs == old(t.Rows[row].Cells[c0].Paragraphs)
+//@   decreases ite(old(spanOf(t.Rows[row].Cells[col].Properties)) > 1, old(spanOf(t.Rows[row].Cells[col].Properties)), 1) - i
+//@ loop 2
+//@   invariant row + 1 <= i && i <= len(t.Rows)
+//@   invariant 0 <= row && row < len(t.Rows) && 0 <= col
+//@   invariant len(t.Rows) == old(len(t.Rows)) && t.Rows == old(t.Rows) && rowsOwn(t)
+//@   invariant len(t.Rows[row].Cells) == old(len(t.Rows[row].Cells)) + old(extraCells(t.Rows[row].Cells[col].Properties)) && col < len(t.Rows[row].Cells)
+//@   invariant t.Rows[row].Cells[col].Properties == old(t.Rows[row].Cells[col].Properties) && t.Rows[row].Cells[col].Properties != nil && t.Rows[row].Cells[col].Properties.GridSpan == nil && t.Rows[row].Cells[col].Properties.VMerge == nil
+//@   invariant forall r int :: 0 <= r && r < len(t.Rows) && r != row ==> t.Rows[r].Cells == old(t.Rows[r].Cells)
+//@   invariant forall r int, c int :: 0 <= r && r < len(t.Rows) && r != row && 0 <= c && c < len(t.Rows[r].Cells) && (c != col || r < row || r >= i) ==> t.Rows[r].Cells[c] == old(t.Rows[r].Cells[c])
+//@   invariant forall r int :: row < r && r < i && col < len(t.Rows[r].Cells) ==> t.Rows[r].Cells[col].Properties == old(t.Rows[r].Cells[col].Properties) && t.Rows[r].Cells[col].Tables == old(t.Rows[r].Cells[col].Tables) && (t.Rows[r].Cells[col].Paragraphs == old(t.Rows[r].Cells[col].Paragraphs) || (old(len(t.Rows[r].Cells[col].Paragraphs)) == 0 && len(t.Rows[r].Cells[col].Paragraphs) == 1))
+//@   invariant forall r int, c int :: 0 <= r && r < len(t.Rows) && r != row && 0 <= c && c < len(t.Rows[r].Cells) && (c != col || r < row || r >= i) && t.Rows[r].Cells[c].Properties != nil ==> t.Rows[r].Cells[c].Properties.VMerge == old(t.Rows[r].Cells[c].Properties.VMerge)
+//@   invariant forall r int :: row < r && r < i && col < len(t.Rows[r].Cells) && t.Rows[r].Cells[col].Properties != nil ==> t.Rows[r].Cells[col].Properties.VMerge == nil || t.Rows[r].Cells[col].Properties.VMerge == old(t.Rows[r].Cells[col].Properties.VMerge)
+//@   invariant forall c0 int :: {old(t.Rows[row].Cells[c0].Properties)} col < c0 && c0 < old(len(t.Rows[row].Cells)) ==> t.Rows[row].Cells[c0 + old(extraCells(t.Rows[row].Cells[col].Properties))].Properties == old(t.Rows[row].Cells[c0].Properties)
+//@   invariant forall c0 int :: {old(t.Rows[row].Cells[c0].Paragraphs)} col < c0 && c0 < old(len(t.Rows[row].Cells)) ==> t.Rows[row].Cells[c0 + old(extraCells(t.Rows[row].Cells[col].Properties))].Paragraphs == old(t.Rows[row].Cells[c0].Paragraphs)
+//@   invariant t.Rows[row].Cells[col].Paragraphs == old(t.Rows[row].Cells[col].Paragraphs)
+//@   decreases len(t.Rows) - i
+
+// CopyTable delegates to (*TemplateEngine).cloneTable: the copy is structurally equal to the original and shares
+// no mutable state with it.
+//@ func (*Table).CopyTable
+//@ props C09
+//@ requires t != nil
+//@ modifies nothing
+//@ ensures deepcopy(result, t)
+
+// GetCellRange: the rectangle is accepted exactly when it lies inside the grid of every row it touches;
+// the result has one entry per cell of the rectangle and nothing that existed before the call is written.
+//@ func (*Table).GetCellRange
+//@ props C09
+//@ requires t != nil
+//@ modifies nothing
+//@ ensures err == nil <==> (0 <= startRow && startRow <= endRow && endRow < len(t.Rows) && 0 <= startCol && startCol <= endCol && endCol < len(t.Rows[0].Cells) && forall r int :: startRow <= r && r <= endRow ==> endCol < len(t.Rows[r].Cells))
+//@ ensures err != nil ==> len(result0) == 0 && arr(result0) == 0
+//@ ensures err == nil ==> len(result0) == (endRow - startRow + 1) * (endCol - startCol + 1)
+//@ loop 1
+//@   invariant startRow <= row && row <= endRow + 1 && unchangedHeap() && freshArr(cells)
+//@   invariant len(cells) == (row - startRow) * (endCol - startCol + 1)
+//@   invariant forall r int :: startRow <= r && r < row ==> endCol < len(t.Rows[r].Cells)
+//@   decreases endRow + 1 - row
+//@ loop 2
+//@   invariant startRow <= row && row <= endRow && startCol <= col && col <= endCol + 1 && unchangedHeap() && freshArr(cells)
+//@   invariant len(cells) == (row - startRow) * (endCol - startCol + 1) + (col - startCol)
+//@   invariant forall r int :: startRow <= r && r < row ==> endCol < len(t.Rows[r].Cells)
+//@   invariant col > startCol ==> col - 1 < len(t.Rows[row].Cells)
+//@   decreases endCol + 1 - col
+//
+// DROPPED (too slow, 5-10 s with cvc5 only, z3 never; re-tried after the engine's append axioms gained selem
+// source terms: without the itoa carrier the steps still do not go through): the element-wise description. With
+// "wf []*CellInfo" on the contract and, in BOTH loops, the invariants
+//   forall k int :: {itoa(k)} {cells[k]} 0 <= k && k < len(cells) ==> atoi(itoa(k)) == k && (cells[k] != nil && fresh(cells[k]) && startRow <= cells[k].Row && cells[k].Row <= endRow && startCol <= cells[k].Col && cells[k].Col <= endCol)
+//   forall k int :: {itoa(k)} {cells[k]} 0 <= k && k < len(cells) ==> atoi(itoa(k)) == k && (cells[k].Cell == &t.Rows[cells[k].Row].Cells[cells[k].Col] && (cells[k].IsLast <==> (cells[k].Row == endRow && cells[k].Col == endCol)))
+//   forall k int :: {itoa(k)} {cells[k]} 0 <= k && k < len(cells) ==> atoi(itoa(k)) == k && (cells[k].Text == cellText(cells[k].Cell))
+// (atoi(itoa(k)) == k is a tautology used as trigger carrier across the append) the three postconditions
+//   err == nil ==> forall k int :: 0 <= k && k < len(result0) ==> result0[k] != nil && fresh(result0[k]) && startRow <= result0[k].Row && result0[k].Row <= endRow && startCol <= result0[k].Col && result0[k].Col <= endCol
+//   err == nil ==> forall k int :: 0 <= k && k < len(result0) ==> result0[k].Cell == &t.Rows[result0[k].Row].Cells[result0[k].Col] && (result0[k].IsLast <==> (result0[k].Row == endRow && result0[k].Col == endCol))
+//   err == nil ==> forall k int :: 0 <= k && k < len(result0) ==> result0[k].Text == cellText(result0[k].Cell)
+// discharge (70/70 at -t 10); the row-major position k == (Row-startRow)*(endCol - startCol + 1) + (Col-startCol) never did.
